@@ -239,7 +239,8 @@ def unsafe_coverage(pid, stage, tier, seed, outdir, chk):
     prof = os.path.join(outdir, "prof")
     shutil.rmtree(prof, ignore_errors=True)
     os.makedirs(prof, exist_ok=True)
-    env = dict(chk.ENV_BASE, CARGO_TARGET_DIR=tdir, RUSTFLAGS="-Cinstrument-coverage")
+    # proc-macros and build scripts are instrumented too and would drop *.profraw into their cwd (/repo): redirect
+    env = dict(chk.ENV_BASE, CARGO_TARGET_DIR=tdir, RUSTFLAGS="-Cinstrument-coverage", LLVM_PROFILE_FILE=os.path.join(outdir, "buildprof", "b-%p-%m.profraw"))
     p = subprocess.run(["cargo", "+nightly", "build", "--offline", "--bin", "vrun"], cwd=chk.HARNESS, env=env, stdout=subprocess.PIPE, stderr=subprocess.STDOUT, text=True)
     if p.returncode != 0:
         merged["inconclusive"].append("coverage build failed: " + p.stdout[-400:])
